@@ -374,12 +374,13 @@ fn validate_nameserver_response(
 
         // only `CNAME`s on the path from the query name are relevant,
         // not every `CNAME` in the response
-        let mut cname_path = HashSet::new();
+        let mut cname_path = HashMap::new();
         let mut path_name = &question.name;
         while let Some(target) = cname_map.get(path_name) {
-            if !cname_path.insert(path_name.clone()) {
+            if cname_path.contains_key(path_name) {
                 break;
             }
+            cname_path.insert(path_name.clone(), cname_path.len());
             path_name = target;
         }
 
@@ -397,10 +398,19 @@ fn validate_nameserver_response(
             if rtype.matches(question.qtype) && an.name == final_name {
                 rrs_for_query.push(an.clone());
                 seen_final_record = true;
-            } else if rtype == RecordType::CNAME && cname_path.contains(&an.name) {
+            } else if rtype == RecordType::CNAME && cname_path.contains_key(&an.name) {
                 rrs_for_query.push(an.clone());
             }
         }
+
+        // the upstream may list the records in any order: put the `CNAME`s in
+        // chain order, followed by the records for the final name
+        rrs_for_query.sort_by_key(|rr| match rr.rtype_with_data {
+            RecordTypeWithData::CNAME { .. } => {
+                cname_path.get(&rr.name).copied().unwrap_or(usize::MAX)
+            }
+            _ => usize::MAX,
+        });
 
         if all_unknown {
             None
